@@ -137,3 +137,56 @@ pub broadcast proof fn lemma_ref_enumeration_of_set(rem: Seq<&Term>, s: Set<Term
     }
     lemma_enumeration_of_set(r, s);
 }
+
+// ---- C10: what the derived copulas mean (from the documentation quoted in the property) ------
+/// `<S {-- P>` is `<{S} --> P>`
+pub open spec fn is_instance_stmt(t: Term, subject: Term, predicate: Term) -> bool {
+    t matches Term::Inheritance(a, b) && *b == predicate
+        && (*a matches Term::SetExtension(s) && s@ == set![subject])
+}
+/// `<S --] P>` is `<S --> [P]>`
+pub open spec fn is_property_stmt(t: Term, subject: Term, predicate: Term) -> bool {
+    t matches Term::Inheritance(a, b) && *a == subject
+        && (*b matches Term::SetIntension(s) && s@ == set![predicate])
+}
+/// `<S {-] P>` is `<{S} --> [P]>`
+pub open spec fn is_instance_property_stmt(t: Term, subject: Term, predicate: Term) -> bool {
+    t matches Term::Inheritance(a, b)
+        && (*a matches Term::SetExtension(s) && s@ == set![subject])
+        && (*b matches Term::SetIntension(s2) && s2@ == set![predicate])
+}
+
+// ---- shape predicates (one per binary constructor) ----
+pub open spec fn is_DifferenceExtension(t: Term, a: Term, b: Term) -> bool { t matches Term::DifferenceExtension(x, y) && *x == a && *y == b }
+pub open spec fn is_DifferenceIntension(t: Term, a: Term, b: Term) -> bool { t matches Term::DifferenceIntension(x, y) && *x == a && *y == b }
+pub open spec fn is_Inheritance(t: Term, a: Term, b: Term) -> bool { t matches Term::Inheritance(x, y) && *x == a && *y == b }
+pub open spec fn is_Similarity(t: Term, a: Term, b: Term) -> bool { t matches Term::Similarity(x, y) && *x == a && *y == b }
+pub open spec fn is_Implication(t: Term, a: Term, b: Term) -> bool { t matches Term::Implication(x, y) && *x == a && *y == b }
+pub open spec fn is_Equivalence(t: Term, a: Term, b: Term) -> bool { t matches Term::Equivalence(x, y) && *x == a && *y == b }
+pub open spec fn is_ImplicationPredictive(t: Term, a: Term, b: Term) -> bool { t matches Term::ImplicationPredictive(x, y) && *x == a && *y == b }
+pub open spec fn is_ImplicationConcurrent(t: Term, a: Term, b: Term) -> bool { t matches Term::ImplicationConcurrent(x, y) && *x == a && *y == b }
+pub open spec fn is_ImplicationRetrospective(t: Term, a: Term, b: Term) -> bool { t matches Term::ImplicationRetrospective(x, y) && *x == a && *y == b }
+pub open spec fn is_EquivalencePredictive(t: Term, a: Term, b: Term) -> bool { t matches Term::EquivalencePredictive(x, y) && *x == a && *y == b }
+pub open spec fn is_EquivalenceConcurrent(t: Term, a: Term, b: Term) -> bool { t matches Term::EquivalenceConcurrent(x, y) && *x == a && *y == b }
+pub open spec fn is_SetExtension(t: Term, s: Set<Term>) -> bool { t matches Term::SetExtension(x) && x@ == s }
+pub open spec fn is_SetIntension(t: Term, s: Set<Term>) -> bool { t matches Term::SetIntension(x) && x@ == s }
+pub open spec fn is_IntersectionExtension(t: Term, s: Set<Term>) -> bool { t matches Term::IntersectionExtension(x) && x@ == s }
+pub open spec fn is_IntersectionIntension(t: Term, s: Set<Term>) -> bool { t matches Term::IntersectionIntension(x) && x@ == s }
+pub open spec fn is_Conjunction(t: Term, s: Set<Term>) -> bool { t matches Term::Conjunction(x) && x@ == s }
+pub open spec fn is_Disjunction(t: Term, s: Set<Term>) -> bool { t matches Term::Disjunction(x) && x@ == s }
+pub open spec fn is_ConjunctionParallel(t: Term, s: Set<Term>) -> bool { t matches Term::ConjunctionParallel(x) && x@ == s }
+pub open spec fn is_Product(t: Term, v: Seq<Term>) -> bool { t matches Term::Product(x) && x@ == v }
+pub open spec fn is_ConjunctionSequential(t: Term, v: Seq<Term>) -> bool { t matches Term::ConjunctionSequential(x) && x@ == v }
+/// image built from a component list that still contains placeholders: index = first placeholder,
+/// components = the list without that placeholder, order kept
+pub open spec fn is_ImageExtension_from(t: Term, with_placeholder: Seq<Term>) -> bool {
+    t matches Term::ImageExtension(i, v) && is_first_placeholder(with_placeholder, i as int)
+        && v@ == with_placeholder.remove(i as int) && i <= v.len()
+}
+/// image built from a component list that still contains placeholders: index = first placeholder,
+/// components = the list without that placeholder, order kept
+pub open spec fn is_ImageIntension_from(t: Term, with_placeholder: Seq<Term>) -> bool {
+    t matches Term::ImageIntension(i, v) && is_first_placeholder(with_placeholder, i as int)
+        && v@ == with_placeholder.remove(i as int) && i <= v.len()
+}
+pub open spec fn is_Negation(t: Term, a: Term) -> bool { t matches Term::Negation(x) && *x == a }
